@@ -560,3 +560,82 @@ func genRedefinitions(r *rng, n int) CaseSet {
 	}
 	return cs
 }
+
+// ---- size extremes: counts and byte totals around 8- and 16-bit boundaries ----
+
+// genSizeExtremes: definitions whose native-field count, developer-field count, single sizes and
+// summed sizes sit at and around 85/86, 127/128, 255/256, 510-513 and 765, each followed by
+// matching data records and by a plain marker record of another local type (so that a mis-sized
+// skip shows as a disturbed neighbour).
+func genSizeExtremes(r *rng, n int) CaseSet {
+	cs := CaseSet{Name: "size-extremes"}
+	counts := []int{0, 1, 2, 3, 5, 84, 85, 86, 100, 127, 128, 200, 254, 255}
+	sizes := []int{0, 1, 2, 3, 4, 8, 56, 100, 127, 128, 200, 254, 255}
+	totals := []int{255, 256, 257, 300, 510, 511, 512, 513, 765, 766, 1024}
+	rec, _ := findMsg(20)
+	hrNum, _, _ := fieldByName(rec, "HeartRate")
+	for i := 0; i < n; i++ {
+		var b recs
+		arch := byte(r.intn(2))
+		b.Write(fileIdRecs(4, arch))
+		marker := defn{local: 1, arch: arch, global: 20, fields: []fdef{{byte(hrNum), 1, 2}}}
+		b.def(marker)
+		d := defn{local: byte(2 + r.intn(14)), arch: byte(r.intn(2)), global: uint16([]int{20, 19, 18, 21, 0xFF00, 23}[r.intn(6)])}
+		// native fields: a few real ones, then filler up to the chosen count
+		nn := counts[r.intn(len(counts))]
+		if r.chance(60) {
+			nn = r.intn(6)
+		}
+		if m, ok := findMsg(int(d.global)); ok {
+			for j := 0; j < nn && j < 3 && j < len(m.Fields); j++ {
+				if fd, ok := compatibleField(r, m.Fields[r.intn(len(m.Fields))]); ok {
+					d.fields = append(d.fields, fd)
+				}
+			}
+		}
+		for len(d.fields) < nn {
+			bt := []byte{0x02, 0x00, 0x84, 0x0D, 0x07}[r.intn(5)]
+			sz := btSize[bt]
+			if r.chance(15) {
+				sz = sizes[r.intn(len(sizes))] / btSize[bt] * btSize[bt]
+			}
+			d.fields = append(d.fields, fdef{byte(150 + r.intn(100)), byte(sz), bt})
+		}
+		// developer fields
+		if r.chance(75) {
+			d.devBit = true
+			nd := counts[r.intn(len(counts))]
+			if r.chance(50) {
+				nd = 1 + r.intn(5)
+			}
+			if r.chance(50) && nd > 0 {
+				// aim the total at a boundary
+				tot := totals[r.intn(len(totals))]
+				for j := 0; j < nd; j++ {
+					left := nd - j
+					s := tot / left
+					if s > 255 {
+						s = 255
+					}
+					if j == nd-1 && tot <= 255 {
+						s = tot
+					}
+					tot -= s
+					d.dev = append(d.dev, ddesc{byte(j), byte(s), byte(r.intn(3))})
+				}
+			} else {
+				for j := 0; j < nd; j++ {
+					d.dev = append(d.dev, ddesc{byte(j), byte(sizes[r.intn(len(sizes))]), byte(r.intn(3))})
+				}
+			}
+		}
+		b.def(d)
+		reps := 1 + r.intn(3)
+		for q := 0; q < reps; q++ {
+			b.data(d.local, r.bytes(defPayloadSize(d)))
+			b.data(1, []byte{byte(100 + q)})
+		}
+		cs.Cases = append(cs.Cases, decCase("decode", "011", "-", "-", frame(b.Bytes(), defaultFrame())))
+	}
+	return cs
+}
